@@ -268,6 +268,8 @@ def kill_matrix(pid, units):
             mine = [f for f in real if pid in f.tags and not f.finding]
             if benign:
                 return m['id'], ('verifies' if not mine else 'FALSE-ALARM')
+            if mine and not any(is_primary(ur, f) for f in mine):
+                return m['id'], 'aux-only (undecided unless a recorded input fails)'
             return m['id'], ('killed' if mine else 'SURVIVED')
         with ThreadPoolExecutor(max_workers=8) as ex:
             res = list(ex.map(one, jobs))
@@ -293,9 +295,7 @@ def is_primary(ur, f):
         return False          # a ghost assertion inserted by the contracts (unnamed)
     if k == 'precondition' and any(ur.gen.markers[m]['kind'] == 'hint' for m in f.markers):
         return False          # a lemma precondition inside a proof hint
-    if k == 'assert' and not f.markers and f.fn and (f.fn.startswith('inserted:') or '#' in f.fn and False):
-        return False
-    return True
+    return True   # incl. assertions inside generated obligation functions (one per table entry: they ARE the property's clauses)
 
 def run_property(pid, tier='quick', seed=0, replay=None):
     t0 = time.time()
